@@ -98,7 +98,7 @@ class Unit:
         # attach each harness to the module that defines it
         for h in self.harnesses:
             for (f, text, modname) in self.modules:
-                if re.search(r"\bfn\s+%s\s*[(<]" % re.escape(h.name), text):
+                if re.search(r"\b%s\b" % re.escape(h.name), text):
                     h.file, h.module = f, modname
                     break
             if h.file is None:
